@@ -56,7 +56,10 @@ struct carquet_bloom_filter {
  * Generate block index from hash.
  */
 static inline size_t bloom_filter_block_index(uint64_t hash, size_t num_blocks) {
-    return (size_t)((hash >> 32) % num_blocks);
+    /* Parquet split-block Bloom filter: the upper 32 hash bits are scaled
+     * into [0, num_blocks) by multiply-shift (not modulo), so that filters
+     * are interchangeable with other implementations */
+    return (size_t)(((hash >> 32) * (uint64_t)num_blocks) >> 32);
 }
 
 /**
